@@ -1,5 +1,5 @@
 """C03 - hit counts, percentages and oktas are what the hits imply."""
-from sa.rules import amount, wmo, metarize
+from sa.rules import amount, wmo, metarize, rounding
 
 LEVEL = 'other'
 
@@ -10,10 +10,11 @@ def check(ctx):
     wmo.perc2okta_kernel(ctx, 'C03-R3')
     metarize.code_assembly(ctx, 'C03-R4')
     wmo.okta2code_table(ctx, 'C03-R4')
+    rounding.perc_rounding(ctx, 'C03-R5')
     ctx.extra['explanation'] = (
         'The count, percentage and okta cells are compared as provenance terms with the specification: per-ceilometer '
         'distinct time stamps summed over the distinct ceilometer names, ratio to the same count over the whole chunk, '
         'ordered 0 / 8 / binned chain in linear normal form; monotonicity in the count follows from the chain shape '
         'and from perc2okta being non-decreasing with range [0, 8] (kernel analysis). ')
     ctx.undecided += ['distinct measurements are those with distinct (ceilo, dt) values as NumPy compares floats',
-                      'numerical correctness of perc2okta bin edges beyond the exact-real model (C18)']
+                      'rounding errors of the percentage off the switching points of the okta binning (they cannot change the okta; on the switching points R5 shows the computation exact)']
